@@ -521,10 +521,12 @@ func runScenario(in *input) (obs [][]obsReply, discard bool) {
 
 // ---------------------------------------------------------------- Coq terms
 
+// coqStr renders a string as a Coq string; observed strings that are not
+// printable ASCII (a torn read can return arbitrary bytes) go through Api.Rest.unhex.
 func coqStr(s string) string {
 	for _, c := range []byte(s) {
 		if c < 32 || c > 126 {
-			panic("non printable string in a case: " + strconv.Quote(s))
+			return "(unhex " + lib.Hex([]byte(s)) + ")"
 		}
 	}
 	return lib.Str(s)
@@ -734,7 +736,16 @@ func run(raw json.RawMessage) lib.Case {
 	if err := json.Unmarshal(raw, &in); err != nil {
 		panic(err)
 	}
-	obs, discard := runScenario(&in)
+	obs, discard := func() (o [][]obsReply, d bool) {
+		defer func() {
+			// the scenario could not be set up (e.g. the port picked for the
+			// test server was taken in the meantime): not reached, not reported
+			if r := recover(); r != nil {
+				o, d = nil, true
+			}
+		}()
+		return runScenario(&in)
+	}()
 	if discard {
 		return lib.Case{Discard: true}
 	}
@@ -757,7 +768,7 @@ func run(raw json.RawMessage) lib.Case {
 		obl[i] = lib.List(os)
 	}
 	coq := fmt.Sprintf("Case %s\n    %s\n    %s", lib.List(cl), lib.List(rds), lib.List(obl))
-	return lib.Case{Coq: coq, Class: in.Kind + ":" + classOf(&in), Obs: obs, Nontrivial: n > 1}
+	return lib.Case{Coq: coq, Class: classOf(&in), Obs: obs, Nontrivial: n > 1}
 }
 
 // ---------------------------------------------------------------- generator
@@ -1036,8 +1047,33 @@ func generate(rng *rand.Rand, tier string) []interface{} {
 		ins = append(ins, in)
 	}
 
+	// (a') short scenarios (2-4 requests), so that a violation has a small replay
+	for n := 0; n < 60*mul; n++ {
+		nc := 1 + rng.Intn(2)
+		in := input{Kind: "short", Clients: genClients(rng, nc)}
+		for i := range in.Clients {
+			in.Clients[i].Svc = true
+		}
+		mv := rng.Intn(4) > 0
+		wsShare := []int{0, 100, 50}[n%3]
+		pool := [][]int{{0}, {1}, {3}, {4}, {0, 1, 2, 3, 4}}[rng.Intn(5)]
+		m := 2 + rng.Intn(3)
+		if n%4 == 3 { // one concurrent round
+			var rd []req
+			for k := 0; k < m; k++ {
+				rd = append(rd, genReq(rng, nc, mv, wsShare, pool))
+			}
+			in.Rounds = append(in.Rounds, rd)
+		} else {
+			for k := 0; k < m; k++ {
+				in.Rounds = append(in.Rounds, one(genReq(rng, nc, mv, wsShare, pool)))
+			}
+		}
+		ins = append(ins, in)
+	}
+
 	// (b) sequential REST histories
-	for n := 0; n < 25*mul; n++ {
+	for n := 0; n < 45*mul; n++ {
 		nc := 1 + rng.Intn(3)
 		in := input{Kind: "rest", Clients: genClients(rng, nc)}
 		mv := rng.Intn(3) > 0
@@ -1047,7 +1083,7 @@ func generate(rng *rand.Rand, tier string) []interface{} {
 		ins = append(ins, in)
 	}
 	// (c) sequential websocket histories (kept and single-use connections)
-	for n := 0; n < 25*mul; n++ {
+	for n := 0; n < 45*mul; n++ {
 		nc := 1 + rng.Intn(3)
 		in := input{Kind: "ws", Clients: genClients(rng, nc)}
 		mv := rng.Intn(3) > 0
@@ -1057,7 +1093,7 @@ func generate(rng *rand.Rand, tier string) []interface{} {
 		ins = append(ins, in)
 	}
 	// (d) sequential mixed histories
-	for n := 0; n < 20*mul; n++ {
+	for n := 0; n < 40*mul; n++ {
 		nc := 1 + rng.Intn(4)
 		in := input{Kind: "mixed", Clients: genClients(rng, nc)}
 		mv := rng.Intn(2) > 0
@@ -1067,7 +1103,7 @@ func generate(rng *rand.Rand, tier string) []interface{} {
 		ins = append(ins, in)
 	}
 	// (e) concurrent rounds, 2..16 clients
-	for n := 0; n < 60*mul; n++ {
+	for n := 0; n < 110*mul; n++ {
 		nc := 2 + rng.Intn(15)
 		in := input{Kind: "conc", Clients: genClients(rng, nc)}
 		mv := rng.Intn(3) > 0
@@ -1093,7 +1129,7 @@ func generate(rng *rand.Rand, tier string) []interface{} {
 	}
 	// (f) concurrent rounds in which every request sets every field (no omission at all):
 	//     any cross-talk seen here comes from the sharing alone
-	for n := 0; n < 15*mul; n++ {
+	for n := 0; n < 20*mul; n++ {
 		nc := 8 + rng.Intn(9)
 		in := input{Kind: "concfull", Clients: genClients(rng, nc)}
 		for i := range in.Clients {
@@ -1112,6 +1148,22 @@ func generate(rng *rand.Rand, tier string) []interface{} {
 		ins = append(ins, in)
 	}
 	return ins
+}
+
+func tornStress() input {
+	in := input{Kind: "witness"}
+	for i := 0; i < 16; i++ {
+		in.Clients = append(in.Clients, client{Keep: i%2 == 0, Svc: true})
+	}
+	segs := []string{"00", "0102030405060708090a0b0c0d0e0f10", "deadbeef", "0a0b0c0d0e0f"}
+	for k := 0; k < 10; k++ {
+		var rd []req
+		for j := 0; j < 16; j++ {
+			rd = append(rd, req{Client: j, Rest: &restReq{Res: 4, Ver: 3, Meth: "GET", JSON: true, Seg: segs[(j+k)%len(segs)], Body: body{Kind: "obj", KVs: []kv{}}}})
+		}
+		in.Rounds = append(in.Rounds, rd)
+	}
+	return in
 }
 
 func corpus() []interface{} {
@@ -1136,6 +1188,9 @@ func corpus() []interface{} {
 		input{Kind: "witness", Clients: []client{{Keep: true, Svc: true}, {Keep: true, Svc: true}}, Rounds: [][]req{
 			ws(0, "a"), ws(0, "fail-1"), ws(0, "a"), ws(1, "a"), ws(0, "hello"),
 		}},
+		// F17 as a data race: concurrent GET-by-bytes requests of different lengths write the
+		// one shared byte slice; a handler may receive a torn slice (not deterministic)
+		tornStress(),
 		// the same history on a single-use client is fine
 		input{Kind: "witness", Clients: []client{{Keep: false, Svc: true}}, Rounds: [][]req{
 			ws(0, "a"), ws(0, "fail-1"), ws(0, "a"), ws(0, "panic-1"), ws(0, "hello"),
@@ -1151,7 +1206,7 @@ func main() {
 			"12-body catalogue on POST and PUT; seeded sequential REST / websocket / mixed histories; concurrent rounds of " +
 			"1-16 clients (kept and single-use connections); requests valid, partial, malformed, failing, panicking, " +
 			"mis-routed; non-trivial = more than one request; distinct = distinct Coq case term",
-		Shard:    20,
+		Shard:    25,
 		Generate: generate,
 		Run:      run,
 		Corpus:   corpus,
